@@ -22,7 +22,8 @@ PROPS = {
                 "local configuration entries outside git-bug.*, the top-level entries of .git, the stash; validity: git fsck --strict "
                 "reports no error, git clone --mirror, git gc --prune=now and a stock git push of the git-bug refs to a fresh bare "
                 "repository succeed, the bugs read back there and every attached blob travelled. "
-                "Non-trivial: the session has a push or pull and an attachment or a merge. Distinct: step-kind sequence.",
+                "Non-trivial: the session has a push or pull and an attachment or a merge. Distinct: step-kind sequence."
+                "Steps also include stock git gc between commands, a bridge configuration written through git-bug's configuration API, bridge rm, two attachment operations committed together, a long session (a repository handle kept open while stock git writes configuration, then git-bug writes), and an optional final wipe; foreign configuration includes sections whose names start with git-bug.",
         "assumptions": ["configuration is compared as a multiset of entries (go-git rewrites the file: merged sections, dropped comments)",
                         "FETCH_HEAD / ORIG_HEAD and *.lock files in .git are git's own bookkeeping"],
         "needs_cli": True,
@@ -42,13 +43,15 @@ PROPS = {
                 "clean run the operations per issue (type, author, time, payload, gitlab id) must equal those of the same rounds "
                 "without any failure. The previous cursor is aged by an hour and the growth by 30 minutes so that the 5 s safety "
                 "margin of the cursor cannot hide a lost update. Non-trivial: a history with growth between rounds, and every fault "
-                "run. Distinct: history shape; endpoint x status of the injected failure.",
+                "run. Distinct: history shape; endpoint x status of the injected failure."
+                "Every fresh import is compared with the tracker's own state (title, state, label set, description and notes): a reference that does not come from git-bug. Planned shapes: one issue's description edited in every round; a label that comes and goes. TestC16SlowImport: a comment arrives on an already-read issue while an error-free import is delayed by 6.5 s; the next incremental import must bring it.",
         "exhaustive": False,
         "exhaustive_note": "request indices of the last round are enumerated exhaustively (403) per generated history; histories are sampled",
         "assumptions": ["connection-level failures (no HTTP response) are not injected in-process: the importer dereferences a nil response in a goroutine",
                         "which 'changed the description' note an edit of the description is attributed to is a heuristic of the importer and is not compared",
                         "titles are never blank after clean-up (GitLab forbids blank titles); only system notes the importer knows are generated"],
-        "tests": [{"name": "TestC16Import", "quick": 6, "shards_quick": 4, "thorough": 40, "shards": 16, "timeout_quick": 900}],
+        "tests": [{"name": "TestC16Import", "quick": 6, "shards_quick": 4, "thorough": 40, "shards": 16, "timeout_quick": 900},
+                  {"name": "TestC16SlowImport", "quick": None, "thorough": None}],
     },
     "C18": {
         "level": "exploration",
@@ -62,7 +65,8 @@ PROPS = {
                 "map access) kills the process and is reported by the driver as a crash inside git-bug. TestC18Eviction: a handle "
                 "resolved before its entity is evicted (cache size 1 and 2) must not block forever. The thorough tier repeats the run "
                 "under the race detector (reports are information only). Non-trivial: >=2 workers touched the same shared bug. "
-                "Distinct: workers x GOMAXPROCS x handle mode x shared bugs x call-count multiset (schedule classes, not interleavings).",
+                "Distinct: workers x GOMAXPROCS x handle mode x shared bugs x call-count multiset (schedule classes, not interleavings)."
+                "Two thirds of the cases inject sleeps/yields before every cache-lock acquisition (hook cache.VerifLockHook, build tag verif); query calls alternate between a filter and a full-text search for a word of the titles being created; once the workers are done every excerpt must describe its bug's current snapshot. TestC18Recency: a bug resolved a moment ago is not the eviction victim. TestC18SnapshotStable: a snapshot taken before an edit reads the same after later edits.",
         "assumptions": ["the harness does not own the Go scheduler: outcomes are checked for the interleavings the runtime happens to produce",
                         "race-detector reports alone are not violations (the property states outcomes)",
                         "cache sizes that force eviction are exercised only by TestC18Eviction because of the known finding it reports"],
@@ -85,7 +89,8 @@ PROPS = {
                 "unchanged, while a read query still works; with a user a failed request changes nothing, a valid request must not "
                 "fail, and on success exactly one bug gained exactly the operations the mutation denotes (kinds, payload after the "
                 "documented clean-up, files, status) authored by that user, and the returned bug reflects them. "
-                "Non-trivial: a mutation with a valid target on an existing bug (or an upload). Distinct: mutation x auth mode x argument classes.",
+                "Non-trivial: a mutation with a valid target on an existing bug (or an upload). Distinct: mutation x auth mode x argument classes."
+                "Anonymous requests also run a battery of read queries over every argument-free field of Repository and the nested lists (userIdentity included).",
         "assumptions": ["mutations added later are covered by the unauthenticated oracle automatically; their authenticated semantics only generically (author, one bug changed)",
                         "whether a label change is effective depends on the state and is not required to succeed"],
         "tests": [{"name": "TestC17API", "quick": 500, "shards_quick": 2, "thorough": 2500, "shards": 12}],
@@ -102,13 +107,14 @@ PROPS = {
                 "and a second holder exit non-zero naming that pid and leave lock content and refs untouched; after a clean stop no "
                 "lock remains; after a kill or a stale lock the next command runs; every command that terminates on its own, success "
                 "or failure, leaves no lock of its own; a lock naming a live process is never removed. "
-                "Non-trivial: the schedule contains a refusal and a recovery after a kill / stale lock. Distinct: step-kind sequence.",
+                "Non-trivial: the schedule contains a refusal and a recovery after a kill / stale lock. Distinct: step-kind sequence."
+                "Commands include the shell-completion helpers that open the repository (judged by the lock, not the exit code). A step is only judged if the holder process is still alive (the web UI announces itself before binding its port).",
         "exhaustive": False,
         "exhaustive_note": "kill moments are sampled wall-clock delays; the simultaneous-start window is not asserted (see DESIGN §5)",
         "assumptions": ["while a holder is still starting (not announced) either order of events is legal and nothing is asserted about a concurrent command",
                         "garbage lock content that no git-bug process can have written only has to be survived without a panic"],
         "needs_cli": True,
-        "tests": [{"name": "TestC19Lock", "quick": 7, "shards_quick": 5, "thorough": 40, "shards": 12, "timeout_quick": 600}],
+        "tests": [{"name": "TestC19Lock", "quick": 10, "shards_quick": 6, "thorough": 40, "shards": 12, "timeout_quick": 600}],
     },
     "C14": {
         "level": "exploration",
@@ -126,7 +132,8 @@ PROPS = {
                 "what git gc does). TestC14RemoveAll: RepoCache.RemoveAll (first step of wipe) over 1..24 identities and 0..24 bugs, "
                 "refs loose or packed, with or without remote-tracking refs: judged by stock git for-each-ref, no local ref is left. "
                 "Non-trivial: >=1 remote holds the entity and >=1 other entity exists (remove); "
-                "identity or bridge configured (wipe). Distinct: entity x mode x remotes/holders x others x shared prefixes x edits.",
+                "identity or bridge configured (wipe). Distinct: entity x mode x remotes/holders x others x shared prefixes x edits."
+                "One remote is named with a slash (team/backup); the victim may be known through remote-tracking refs only (entity API); a third of the cases pack the refs first; CLI removals may run while another bug is selected. TestC14RemoveAll: RepoCache.RemoveAll over 1..24 identities and 0..24 bugs with loose or packed refs, judged by stock git.",
         "assumptions": ["identities referenced by bugs are never removed (documented caller responsibility)",
                         "a repeated removal may return an error as long as nothing changes"],
         "needs_cli": True,
@@ -165,7 +172,8 @@ PROPS = {
                 "cache (any-of / all-of rules of the statement, case-insensitive name/login substring, id prefix), duplicate-free, "
                 "monotone in the primary sort key, result(search+filters) = result(search) INTERSECT reference(filters), planted tokens "
                 "found. Non-trivial: >=2 kinds, a quoted value or explicit sort (parse); a population with a query whose result is "
-                "neither empty nor everything (evaluation). Distinct: abstracted token shape / population size and partial-result count.",
+                "neither empty nor everything (evaluation). Distinct: abstracted token shape / population size and partial-result count."
+                "Half of the bugs with metadata get it attached after creation (SetMetadata on the create operation); person values include id prefixes of the generated identities typed in lower and in upper case.",
         "assumptions": ["ties in the sort key may come in any order", "values containing both kinds of quote and empty values are not expressible and not generated",
                         "qualifier names are matched case-sensitively (the statement promises case-insensitive matching of names, logins and ids only)"],
         "tests": [{"name": "TestC12ParseRobust", "quick": 20000, "thorough": 200000, "shards": 4},
@@ -201,7 +209,8 @@ PROPS = {
                 "= keys of the last version whose bugs-edit time <= T (a version without that clock inherits the previous time); "
                 "accept iff no key in force or a valid signature by one of them over the exact content; bug.Read (author resolved "
                 "from git, i.e. public keys only) and MergeAll must both agree, with an error and never a panic on rejection. "
-                "Non-trivial: a key is in force and the variant is not 'right key'. Distinct: key-count pattern x key-in-force x variant x clock-at-first.",
+                "Non-trivial: a key is in force and the variant is not 'right key'. Distinct: key-count pattern x key-in-force x variant x clock-at-first."
+                "The tested commit is the root, a child with one comment or a child with an empty pack; an altered commit keeps its signature and changes the tree, the parent or the date; mutators rotate keys in place in half of the same-size changes, and a key change that adds no version is a failure.",
         "assumptions": ["go-git stores/returns the signed bytes faithfully (the mock backend only signs the tree hash and is not used)"],
         "tests": [{"name": "TestC08Signatures", "quick": 500, "shards_quick": 2, "thorough": 3000, "shards": 16}],
     },
@@ -217,7 +226,8 @@ PROPS = {
                 "accepted ones round-trip; the cache view equals git after the merge. TestC09CraftedChains: chains with decreasing / "
                 "dropped clocks, no name and login, unsafe characters served by a remote are refused in every local situation. "
                 "Non-trivial: a pull with remote-extends, diverged, or equal/ahead with prefix >= 2. Distinct: relation + prefix "
-                "multiset (+ operator x position x situation for crafted chains).",
+                "multiset (+ operator x position x situation for crafted chains)."
+                "Clock actions (bug activity) move a repository's clocks; an edit whose new version would record clocks behind the previous version must be refused (planned in a quarter of the cases).",
         "assumptions": ["avatar URL validity is not asserted (the statement does not list it)"],
         "tests": [{"name": "TestC09Identities", "quick": 120, "shards_quick": 3, "thorough": 600, "shards": 16},
                   {"name": "TestC09CraftedChains", "quick": 600, "thorough": 3000, "shards": 2}],
@@ -235,7 +245,8 @@ PROPS = {
                 "cache view and clocks are unchanged by refused data; accepted (MAY) data yields a readable valid entity. "
                 "Thorough adds native coverage-guided fuzzing of the ops blob and the identity version blob. "
                 "Non-trivial: mutated entity differs from the original and the local situation is not 'absent'. "
-                "Distinct: operator x position class x situation x layer.",
+                "Distinct: operator x position class x situation x layer."
+                "Further operators: first unassigned and boundary operation types, nonce lengths at the limits, a second root that looks like a genuine first commit, times far ahead followed by a commit going back (a refused history must leave the local clocks where they were). TestC07SignedHistories: commits of an author with a key in force served unsigned, signed by a stranger or altered under a kept signature (root, child with operations, child with an empty pack), reported invalid with refs untouched.",
         "exhaustive": False,
         "exhaustive_note": "TestC07Catalogue enumerates catalogue x situations x position classes completely on one base history; the rapid and fuzz parts sample",
         "assumptions": ["MUST-REJECT only for deviations from the documented format, a validation rule or a ref/id mismatch; benign "
@@ -260,7 +271,8 @@ PROPS = {
                 "interrupted step to reach the post state with each operation once. TestC06TornClock: every crash point (file-system "
                 "call or byte) inside an update of a persisted clock file, through a fault-injecting billy filesystem, for generated "
                 "values across digit-length boundaries. Non-trivial: abort strictly inside the write (k>0 / budget>0). "
-                "Distinct: scenario + N + k (+ branch lengths); digit pattern + crash point.",
+                "Distinct: scenario + N + k (+ branch lengths); digit pattern + crash point."
+                "Scenario identity-several-versions: one Commit stores several pending versions (new identity mutated twice; existing identity mutated three times). TestC06TornClock also enumerates the crash points of the very first write of a clock file.",
         "exhaustive": False,
         "exhaustive_note": "abort points are enumerated exhaustively per generated scenario; scenarios and clock values are sampled",
         "assumptions": ["crash granularity = between storage API calls of repository.ClockedRepo, and between/inside file-system calls for clock files",
@@ -280,7 +292,8 @@ PROPS = {
                 "no clock below its bound; every new commit carries an edit time above the clock's previous value and above every "
                 "edit time stored in a local commit (independent reader); the repository reads back what it wrote. "
                 "TestC05CLI drives the real binary with clock files deleted between commands. Non-trivial: a re-open or clock "
-                "deletion after a peer merge raised the clock (go-git) / a sequence of >5 actions (memory). Distinct: action-kind sequence.",
+                "deletion after a peer merge raised the clock (go-git) / a sequence of >5 actions (memory). Distinct: action-kind sequence."
+                "The subject may publish (push) and the peer may merge and publish (peersync), so that the subject fast-forwards to a merge commit made elsewhere before it writes.",
         "assumptions": ["remote-tracking refs fetched but not merged are not part of what a clock must dominate",
                         "values passed to a bare Witness are legitimately forgotten when the clock file is deleted"],
         "needs_cli": True,
@@ -312,7 +325,8 @@ PROPS = {
                 "different head commits show the same order and compiled snapshot; (b) at quiescence every bug readable on every "
                 "replica, identical operation-id order and compiled snapshot everywhere, id set = everything committed (model), refs "
                 "equal on all replicas and remotes. Non-trivial: some final history holds a merge commit. Distinct: replica count + multiset of merge "
-                "shapes (commits exclusive to each parent) + operation-kind multiset.",
+                "shapes (commits exclusive to each parent) + operation-kind multiset."
+                "Also generated: fetch without merge, the packaged identity.Pull + bug.Pull (post-condition: everything fetched is merged), stock git gc between actions, restarts with lowered clock files, edits of another replica's identity (identities may diverge), and a planned stale-merge episode.",
         "assumptions": ["identities are exchanged before the bugs that reference them (as RepoCache.Pull/Push do)",
                         "a rejected non-fast-forward push is a legal outcome"],
         "tests": [{"name": "TestC01Convergence", "quick": 40, "shards_quick": 4, "thorough": 300, "shards": 16}],
@@ -329,7 +343,8 @@ PROPS = {
                 "re-opened and rebuilt caches, small cache sizes): after every RepoCache.Pull the bug handed out by Resolve starts "
                 "with exactly the operations of the local ref, keeps what it had, and its excerpt counts the same comments. "
                 "Non-trivial: a pull that fast-forwarded (s4) or merged diverged "
-                "branches (s5) an existing bug. Distinct: multiset of merge scenarios with branch lengths.",
+                "branches (s5) an existing bug. Distinct: multiset of merge scenarios with branch lengths."
+                "Identities may diverge when a replica edits another replica's identity: the diverged one must be refused, untouched, and the merge must go on with the others.",
         "assumptions": ["single-threaded harness: the bare remote equals the just-fetched state"],
         "tests": [{"name": "TestC02Pull", "quick": 60, "shards_quick": 4, "thorough": 400, "shards": 16},
                   {"name": "TestC02CachePull", "quick": 40, "shards_quick": 3, "thorough": 300, "shards": 8}],
@@ -343,7 +358,8 @@ PROPS = {
                 "clocks (equal edit times on concurrent packs included) or one injected defect (15 kinds); a reference validator "
                 "computed from the stored DAG decides accept/refuse; accepted DAGs must read in reference order on go-git and on "
                 "the in-memory backend. Non-trivial: a fork/merge, an equal-edit-time pair or an injected defect. Distinct: DAG "
-                "shape + defect + verdict (B), merge shapes (A).",
+                "shape + defect + verdict (B), merge shapes (A)."
+                "After every refused read of a crafted history the reader's clocks are where they were.",
         "assumptions": ["shapes the statement is silent about (create clock on a non-root, a large hop onto a merge commit, zero "
                         "edit time on a root) are expected to be accepted or are not asserted"],
         "tests": [{"name": "TestC03Crafted", "quick": 1500, "thorough": 6000, "shards": 8},
